@@ -117,14 +117,23 @@ package altair
 // source within integer_squareroot(SLOTS_PER_EPOCH) slots, timely target within SLOTS_PER_EPOCH slots, timely head at the minimum delay.
 // process_attestation's checks as in phase0.
 //@ sort IdxAttT = phase0.IndexedAttestation
+//@ sort AttDataT = phase0.AttestationData
+//@ sort StateC = common.BeaconState
+// get_attestation_participation_flag_indices as a flag byte: timely source (delay <= isqrt(SLOTS_PER_EPOCH)), timely target
+// (matching target, delay <= SLOTS_PER_EPOCH), timely head (matching target and head, delay == MIN_ATTESTATION_INCLUSION_DELAY)
+//@ ufun att_flags(SpecP, StateC, AttDataT, int) int
 //@ func GetApplicableAttestationParticipationFlags(spec, state, data, inclusionDelay) (out, err)
 //@   property C03 C01
 //@   requires spec != nil && state != nil && data != nil && spec.SLOTS_PER_EPOCH != 0
 //@   ensures source: err == nil ==> !st_slot_err(state) && (data.Target.Epoch == st_slot(state) / spec.SLOTS_PER_EPOCH ==> !st_curjust_err(state) && data.Source == st_curjust(state)) && (data.Target.Epoch != st_slot(state) / spec.SLOTS_PER_EPOCH ==> !st_prevjust_err(state) && data.Source == st_prevjust(state))
 //@   ensures flags: err == nil ==> !st_broots_err(state) && (exists r :: 0 <= r && r * r <= spec.SLOTS_PER_EPOCH && spec.SLOTS_PER_EPOCH < (r + 1) * (r + 1) && (let tm := roots_at(st_broots(state), data.Target.Epoch * spec.SLOTS_PER_EPOCH) == data.Target.Root in let hm := roots_at(st_broots(state), data.Slot) == data.BeaconBlockRoot in out == ite(inclusionDelay <= r, 1, 0) + ite(tm && inclusionDelay <= spec.SLOTS_PER_EPOCH, 2, 0) + ite(tm && hm && inclusionDelay == spec.MIN_ATTESTATION_INCLUSION_DELAY, 4, 0)))
+// the flag byte as a named function of the inputs (an assumption of determinism, listed in the evidence): callers state their effects with it,
+// and the clause above says what its value is
+//@   names err == nil ==> out == att_flags(spec, state, *data, inclusionDelay)
 
 //@ func ProcessAttestation(spec, epc, state, attestation) err
-//@   property C03
+//@   property C03 C01
+//@   opt rangeindex=on
 //@   panics off
 //@   opt weakcalls
 //@   opt inline=closures
@@ -138,6 +147,17 @@ package altair
 //@   ensures source: err == nil ==> (old(attestation.Data.Target.Epoch) == st_slot(state) / spec.SLOTS_PER_EPOCH ==> !st_curjust_err(state) && old(attestation.Data.Source) == st_curjust(state)) && (old(attestation.Data.Target.Epoch) != st_slot(state) / spec.SLOTS_PER_EPOCH ==> !st_prevjust_err(state) && old(attestation.Data.Source) == st_prevjust(state))
 //@   ensures index: err == nil ==> (let te := old(attestation.Data.Target.Epoch) in (te == old(epc.PreviousEpoch.Epoch) ==> old(attestation.Data.Index) < old(len(epc.PreviousEpoch.Committees[0]))) && (te != old(epc.PreviousEpoch.Epoch) && te == old(epc.CurrentEpoch.Epoch) ==> old(attestation.Data.Index) < old(len(epc.CurrentEpoch.Committees[0]))) && (te != old(epc.PreviousEpoch.Epoch) && te != old(epc.CurrentEpoch.Epoch) ==> te == old(epc.NextEpoch.Epoch) && old(attestation.Data.Index) < old(len(epc.NextEpoch.Committees[0]))))
 //@   ensures indexed: err == nil ==> (exists ia IdxAttT :: idxatt_ok(spec, epc, state, ia) && ia.Data == old(attestation.Data) && ia.Signature == old(attestation.Signature))
+// process_attestation's participation effect (C01): every attesting index of the validated indexed form gets the applicable flags
+// added to what it had, in the registry of the target's epoch (current or previous); no other entry of that registry changes
+//@   assigns ghost(n_set_pflag)
+//@   ensures c01_flags_set@C01: err == nil ==> !st_slot_err(state) && (let P := ite(old(attestation.Data.Target.Epoch) == st_slot(state) / spec.SLOTS_PER_EPOCH, st_curpart(state), st_prevpart(state)) in (let f := att_flags(spec, state, old(attestation.Data), (st_slot(state) - old(attestation.Data.Slot)) % 18446744073709551616) in exists ia IdxAttT :: idxatt_ok(spec, epc, state, ia) && ia.Data == old(attestation.Data) && ia.Signature == old(attestation.Signature) && (forall j :: {ia.AttestingIndices[j]} 0 <= j && j < len(ia.AttestingIndices) ==> pflag_at(n_set_pflag, P, ia.AttestingIndices[j]) == bor8(old(pflag_at(n_set_pflag, P, ia.AttestingIndices[j])), f))))
+//@   ensures c01_flags_others@C01: err == nil ==> !st_slot_err(state) && (let P := ite(old(attestation.Data.Target.Epoch) == st_slot(state) / spec.SLOTS_PER_EPOCH, st_curpart(state), st_prevpart(state)) in (let f := att_flags(spec, state, old(attestation.Data), (st_slot(state) - old(attestation.Data.Slot)) % 18446744073709551616) in exists ia IdxAttT :: idxatt_ok(spec, epc, state, ia) && ia.Data == old(attestation.Data) && ia.Signature == old(attestation.Signature) && (forall k :: {pflag_at(n_set_pflag, P, k)} (forall j :: {ia.AttestingIndices[j]} 0 <= j && j < len(ia.AttestingIndices) ==> ia.AttestingIndices[j] != k) ==> pflag_at(n_set_pflag, P, k) == old(pflag_at(n_set_pflag, P, k)))))
+//@   loop 1
+//@     invariant indexedAtt != nil && n_set_pflag >= old(n_set_pflag) && 0 <= applyFlags && applyFlags < 256
+//@     invariant applyFlags == att_flags(spec, state, old(attestation.Data), (st_slot(state) - old(attestation.Data.Slot)) % 18446744073709551616)
+//@     invariant forall j :: {indexedAtt.AttestingIndices[j]} 0 <= j && j <= rangeindex ==> pflag_at(n_set_pflag, epochParticipation, indexedAtt.AttestingIndices[j]) == bor8(pflag_at(old(n_set_pflag), epochParticipation, indexedAtt.AttestingIndices[j]), applyFlags)
+//@     invariant forall k :: {pflag_at(n_set_pflag, epochParticipation, k)} pflag_at(n_set_pflag, epochParticipation, k) == pflag_at(old(n_set_pflag), epochParticipation, k) || pflag_at(n_set_pflag, epochParticipation, k) == bor8(pflag_at(old(n_set_pflag), epochParticipation, k), applyFlags)
+//@     invariant forall k :: {pflag_at(n_set_pflag, epochParticipation, k)} (forall j :: {indexedAtt.AttestingIndices[j]} 0 <= j && j <= rangeindex ==> indexedAtt.AttestingIndices[j] != k) ==> pflag_at(n_set_pflag, epochParticipation, k) == pflag_at(old(n_set_pflag), epochParticipation, k)
 
 // the fork's penalty parameters (C02, C01): slashing penalty quotient, proportional slashing multiplier, inactivity penalty quotient
 //@ func (state *BeaconStateView) ForkSettings(spec) r
@@ -170,6 +190,20 @@ package altair
 //@ ufun st_curpart(StateA) PartViewP
 //@ ufun part_raw_err(PartViewP) bool
 //@ ufun part_raw(PartViewP) PartT
+// participation flags of one epoch's registry view: a list updated in place (versioned by the number of SetFlags calls)
+//@ ufun pflag_at(int, PartViewP, int) int
+//@ axiom pflag_range: forall n int, v PartViewP, k int :: {pflag_at(n, v, k)} 0 <= pflag_at(n, v, k) && pflag_at(n, v, k) < 256
+//@ func (v *ParticipationRegistryView) GetFlags(index) (r, err)
+//@   trusted
+//@   opt noalloc
+//@   ensures err == nil ==> r == pflag_at(n_set_pflag, v, index)
+//@ func (v *ParticipationRegistryView) SetFlags(index, flags) err
+//@   trusted
+//@   assigns ghost(n_set_pflag)
+//@   ensures n_set_pflag == old(n_set_pflag) + 1
+//@   ensures err == nil ==> pflag_at(n_set_pflag, v, index) == flags
+//@   ensures err != nil ==> pflag_at(n_set_pflag, v, index) == pflag_at(old(n_set_pflag), v, index)
+//@   ensures forall k :: {pflag_at(n_set_pflag, v, k)} k != index ==> pflag_at(n_set_pflag, v, k) == pflag_at(old(n_set_pflag), v, k)
 //@ func (s AltairLikeBeaconState) PreviousEpochParticipation() (r, err)
 //@   trusted
 //@   opt noalloc
@@ -228,6 +262,7 @@ package altair
 //@     invariant ctx_t >= old(ctx_t) && (old(ctx_seen) || !ctx_seen)
 //@     invariant ctx_t > old(ctx_t) ==> !ctx_cancelled(ctx, old(ctx_t))
 //@   assigns ghost(n_set_bal)
+//@   assigns ghost(n_set_pflag)
 
 //@ func ComputeEpochAttesterData(ctx, spec, epc, flats, state) (r0, err)
 //@   property C18 C02
@@ -474,6 +509,7 @@ package altair
 //@     invariant ctx_t >= old(ctx_t) && (old(ctx_seen) || !ctx_seen)
 //@     invariant ctx_t > old(ctx_t) ==> !ctx_cancelled(ctx, old(ctx_t))
 //@   assigns ghost(n_set_bal)
+//@   assigns ghost(n_set_pflag)
 //@   assigns ghost(n_vote_append), ghost(last_vote_append), ghost(n_set_eth1), ghost(set_eth1)
 //@   assigns ghost(n_set_mix), ghost(last_set_mix_epoch), ghost(last_set_mix)
 //@   assigns ghost(n_set_lhdr), ghost(set_lhdr)
